@@ -18,6 +18,7 @@ package main
 import (
 	"fmt"
 	"math"
+	"os"
 	"sync"
 	"sync/atomic"
 
@@ -79,9 +80,12 @@ func replay(r *vk.Run) {
 	fmt.Printf("powers %v, %d single steps, then IncrementAccum%v: %s\n", c.Powers, c.Before, c.Incs, rotState(a).str(n))
 	fmt.Printf("powers %v, %d single steps, then %d x IncrementAccum(1): %s\n", c.Powers, c.Before, k, rotState(b).str(n))
 	if rotState(a) != rotState(b) {
-		r.Violation(keyBatch, "replayed: the two paths end in different states", c)
+		// printed directly: vk.Finish would overwrite the replay file that is being replayed
+		fmt.Printf("VIOLATION property=C17 replay=%s key=%s :: replayed: the two paths end in different states\n", r.ReplayPath, keyBatch)
+		os.Exit(1)
 	}
-	r.Finish()
+	fmt.Println("C17 replay: both paths end in the same state")
+	os.Exit(0)
 }
 
 func main() {
